@@ -101,6 +101,10 @@ class Sandbox(object):
         self.mpirun = self.root + '/bin/mpirun'
         write_x(self.probe, PROBE.replace('@PROBE_DIR@', self.probe_dir)); write_x(self.cmd, CMD.replace('@PROBE_DIR@', self.probe_dir))
         write_x(self.mpirun, MPIRUN)
+        # a program of the same name as the probe on the AGENT's search path (the agent's virtualenv has a `python`, too):
+        # a task that describes its executable by name and its own PATH must not end up running this one
+        os.makedirs(self.root + '/decoy', exist_ok=True)
+        write_x(self.root + '/decoy/probe', "#!/bin/sh\necho decoy >> '%s/decoy.ran'\nexit 0\n" % self.probe_dir)
 
     def clean_probe(self):
         shutil.rmtree(self.probe_dir, ignore_errors=True)
